@@ -36,6 +36,16 @@ type CallFrame struct {
 	InstructionPointer uint
 }
 
+// Where execution continues when an exception is caught, together with the state of the core
+// at the time the `try` was entered: everything that the protected code (including functions called by it)
+// has put on top of it is discarded when the handler takes over.
+type ExceptionCatchLabel struct {
+	CallFrame
+	CallStackSize int
+	StackSize     int
+	MemoryPointer int64
+}
+
 type Core struct {
 	CallStack []CallFrame
 	// Replace with continuous memory, implement a stack pointer
@@ -52,7 +62,7 @@ type Core struct {
 	SignalHandle chan *value.VmInterrupt
 
 	// A `stack` of labels to jump to if an exception is raised
-	ExceptionCatchLabels []CallFrame
+	ExceptionCatchLabels []ExceptionCatchLabel
 
 	// Points to the start of the current stackframe
 	// Then, the absolute index can be computed by adding the value of mp and the relative offset of the memory location.
@@ -90,7 +100,7 @@ func NewCore(
 		Executor:             executor,
 		Corenum:              coreNum,
 		SignalHandle:         handle,
-		ExceptionCatchLabels: []CallFrame{},
+		ExceptionCatchLabels: []ExceptionCatchLabel{},
 		MemoryPointer:        0,
 		CancelCtx:            ctx,
 		Limits:               limits,
@@ -311,14 +321,19 @@ outer:
 						return
 					}
 
-					// If the exception occurred in another function, also pop the call frame of this function
+					// If the exception occurred in another function, also pop the call frames of every function
+					// between the `throw` and the `try`, and give back their operands and memory.
 					// If this was not the case, a function would basically "return twice",
 					// as the jump to the error-handling code would not pop the most current call frame.
 					catchLocation := self.ExceptionCatchLabels[len(self.ExceptionCatchLabels)-1]
-					if self.callFrame().Function != catchLocation.Function {
+					for len(self.CallStack) > catchLocation.CallStackSize {
 						self.popCallStack()
 					}
-					*self.callFrame() = catchLocation
+					if len(self.Stack) > catchLocation.StackSize {
+						self.Stack = self.Stack[:catchLocation.StackSize]
+					}
+					self.MemoryPointer = catchLocation.MemoryPointer
+					*self.callFrame() = catchLocation.CallFrame
 
 					self.push(
 						value.NewValueObject(map[string]*value.Value{
